@@ -181,6 +181,16 @@ def main(argv=None):
         kf_out.append(ent)
 
     # ------------------------------------------------------------------ report
+    # one report per obligation (the first replayed witness, else the first)
+    byob = {}
+    for v in violations:
+        k = v["obligation"]
+        if k not in byob or (v.get("replayed") and not byob[k].get("replayed")):
+            v["occurrences"] = byob.get(k, {}).get("occurrences", 0) + 1
+            byob[k] = v
+        else:
+            byob[k]["occurrences"] = byob[k].get("occurrences", 1) + 1
+    violations = list(byob.values())
     for v in violations:
         h = hashlib.sha1(json.dumps(v, sort_keys=True, default=str).encode()).hexdigest()[:10]
         path = os.path.join("replay", "%s-%s.json" % (prop, h))
